@@ -375,6 +375,23 @@ func judgeExec(h *harness, ex *schedExec, prop string, addV func(prop, kind, wha
 			}
 			label = append(label, fmt.Sprintf("%s:%v:%s", r.Thread, r.Results, errClassShort(r.Err)))
 		}
+		// no harness body returns an error and no fault is injected: a transaction that fails although
+		// the database was not closed under it failed for a reason of the library's own making (it is
+		// NOT simply counted as aborted)
+		hasClose := false
+		for _, t := range h.threads {
+			if t.kind == "close" {
+				hasClose = true
+			}
+		}
+		if !hasClose {
+			for _, r := range recs {
+				if r.Err != "" {
+					addV(prop, "tx-failed", r.Kind+":"+eng.ErrClass(r.Err), s, fmt.Sprintf("%s (%s) returned %q although no call of its body failed on purpose and nothing closed the database", r.Thread, r.Kind, r.Err))
+					return "tx-failed"
+				}
+			}
+		}
 		init := in.Model // the model after set-up (threads do not touch Inst.Model)
 		finals, why := serialOrders(init, recs)
 		out.Evals += len(recs)
